@@ -47,8 +47,9 @@ Proof. split; [split; repeat constructor|]. split; [vm_compute; reflexivity|]. s
 
 (* the dependence on C05 is real: with an ENV batch whose fills do not conserve the base coin (a buy
    order receives 500 base coins and pays nothing) the escrow holds 503 while the live sell order
-   still has 1000 remaining - [surplus] is -500.  (Such a batch was not produced by the real matching
-   engine through the keeper in any run; the known C05 finding is about the amm package alone) *)
+   still has 1000 remaining - [surplus] is -500.  (Such batches ARE produced by the real matching engine through the keeper:
+   known findings C05-F1 / C04-F1, harness TestC05KeeperHunt - one limit order against two pool orders worth about
+   one quote unit on the same tick; the runner then sees holds_C04_pair_escrow fail inside kf_C05_1_via_fills) *)
 Theorem c04_pair_escrow_needs_conservation :
   hist_ok (w_setup 1) w_bad_ops /\ surplus w_bad_state 1 1 1 = -500 /\
   led w_bad_state (Escrow 1 1) 1 = 503 /\ rem_need 1 (pair_orders 1 1 (orders w_bad_state)) = 1000 /\
